@@ -160,10 +160,29 @@ func init() {
 		}
 		e.setField(cp, T, "SerialNumber", e.newBig(e.viewBytes(ser, int(ser.Len.C))))
 		e.setField(cp, T, "PublicKeyAlgorithm", e.tb.I64(1))
+		// assumption: certificates made by vsym.Cert for different keys differ in issuer or serial
+		// (what a CA guarantees); "same issuer and serial, other key" is introduced with CertSameID
+		for _, other := range p.certs {
+			if p.certKey[other] == name {
+				continue
+			}
+			oi := (*e.fieldPtr(other, T, "RawIssuer")).(SliceVal)
+			_, om, _ := e.bigParts(*e.fieldPtr(other, T, "SerialNumber"))
+			same := e.bytesEq(oi, iss)
+			ob := e.bigMagBytes(om)
+			mb := e.viewBytes(ser, int(ser.Len.C))
+			if len(ob) == len(mb) {
+				same = e.tb.And(same, e.termsEq(ob, mb))
+			} else {
+				same = e.tb.F
+			}
+			e.Assume(e.tb.BNot(same))
+		}
 		if p.certKey == nil {
 			p.certKey = map[*Value]string{}
 		}
 		p.certKey[cp] = name
+		p.certs = append(p.certs, cp)
 		return cp
 	})
 	reg("(*crypto/x509.Certificate).CheckSignature", func(fr *frame, a []Value) Value {
@@ -212,7 +231,7 @@ func init() {
 		raw := a[0].(SliceVal)
 		// the certificates made by vsym.Cert parse to themselves; anything else is an opaque parse failure or success
 		var out []Value
-		for cp := range p.certKey {
+		for _, cp := range p.certs {
 			T := e.namedType("crypto/x509", "Certificate")
 			r := (*e.fieldPtr(cp, T, "Raw")).(SliceVal)
 			if raw.Obj != nil && r.Len.IsConst() && e.Decide(e.bytesEq(r, raw)) {
@@ -295,6 +314,22 @@ func init() {
 			bs = append([]*Term{e.tb.Const(8, v&0xff)}, bs...)
 		}
 		return e.newBig(bs)
+	})
+	reg(vsymPath+".CertSameID", func(fr *frame, a []Value) Value {
+		// a certificate with the issuer and serial of `like` but the key of `signer`
+		e := fr.e
+		p := e.path
+		name := e.signerName(a[0].(Iface).V)
+		like := a[1].(*Value)
+		T := e.namedType("crypto/x509", "Certificate")
+		v := e.copyVal(*like)
+		cp := &v
+		raw := e.symBytes("cert."+name+".raw", e.tb.I64(5), 5)
+		p.inputs = p.inputs[:len(p.inputs)-1]
+		e.setField(cp, T, "Raw", raw)
+		p.certKey[cp] = name
+		p.certs = append(p.certs, cp)
+		return cp
 	})
 	reg(vsymPath+".CertRawLen", func(fr *frame, a []Value) Value { fr.e.path.certRawLen = int(concInt(a[0])); return nil })
 	_ = strings.TrimSpace
